@@ -138,6 +138,47 @@ class Check:
             s.inconclusive.append(msg); s.notes.append('INCONCLUSIVE: ' + msg)
             print(f'INCONCLUSIVE property={s.pid} part={name}: {kind}: {str(e)[:600]}', flush=True)
             return None
+    def parallel(s, parts, workers=None):
+        """run independent parts in forked worker processes (z3 is single-threaded; the sandbox has 16 cores) and merge what they
+        covered. parts: [(name, fn, args)] - fn is called as fn(child_check, *args)."""
+        import multiprocessing as mp, tempfile
+        workers = workers or int(os.environ.get('VERIF_WORKERS', '12'))
+        ctx = mp.get_context('fork'); tmp = tempfile.mkdtemp(prefix='verif-parts-')
+        if s._replay: s._replay.close(); s._replay = None
+        def child(i, name, fn, args):
+            c = Check(s.pid, []); c.tier = s.tier; c.seed = s.seed; c.known = s.known; c.t0 = s.t0
+            c.part(name, fn, c, *args)
+            if c._replay: c._replay.close()
+            out = {k: getattr(c, k) for k in ('functions', 'queries', 'samples', 'states', 'transitions', 'replayed', 'violations', 'known_hits', 'notes',
+                                               'bounds', 'assumptions', 'dumps', 'solver_s', 'obligations', 'discharged', 'inconclusive')}
+            out['models_used'] = sorted(c.models_used); out['opaque'] = sorted(c.opaque)
+            json.dump(out, open(os.path.join(tmp, f'{i}.json'), 'w'), default=str)
+            sys.stdout.flush(); os._exit(0)
+        pending = list(enumerate(parts)); running = {}
+        build_replay()      # once, before forking
+        while pending or running:
+            while pending and len(running) < workers:
+                i, (name, fn, args) = pending.pop(0)
+                p_ = ctx.Process(target=child, args=(i, name, fn, args)); p_.start(); running[i] = (p_, name)
+            for i in list(running):
+                p_, name = running[i]
+                p_.join(timeout=0.2)
+                if p_.is_alive(): continue
+                del running[i]
+                f = os.path.join(tmp, f'{i}.json')
+                if not os.path.exists(f):
+                    s.inconclusive.append(f'{name}: worker died (exit code {p_.exitcode})'); print(f'INCONCLUSIVE property={s.pid} part={name}: worker died (exit code {p_.exitcode})', flush=True); continue
+                o = json.load(open(f))
+                s.functions.update(o['functions']); s.queries += o['queries']; s.states += o['states']; s.transitions += o['transitions']; s.replayed += o['replayed']
+                s.violations += o['violations']; s.notes += o['notes']; s.bounds.update(o['bounds']); s.dumps += o['dumps']; s.solver_s += o['solver_s']
+                s.obligations += o['obligations']; s.discharged += o['discharged']; s.inconclusive += o['inconclusive']
+                for x in o['known_hits']:
+                    if x not in s.known_hits: s.known_hits.append(x)
+                for x in o['samples']: s.sample(x)
+                for x in o['assumptions']:
+                    if x not in s.assumptions: s.assumptions.append(x)
+                s.models_used |= set(o['models_used']); s.opaque |= set(o['opaque'])
+        import shutil; shutil.rmtree(tmp, ignore_errors=True)
     def phase(s, name):
         now = time.time(); s.notes.append(f'phase {name} starts at +{round(now - s.t0, 1)}s'); sys.stderr.write(f'[{s.pid}] +{round(now - s.t0, 1)}s {name}\n')
     def sample(s, x):
@@ -151,7 +192,7 @@ class Check:
                     s.known_hits.append(line); print(line, flush=True)
                 return 'known'
         os.makedirs(os.path.join(VERIF, 'out'), exist_ok=True)
-        path = os.path.join(VERIF, 'out', f'{s.pid}-{role}-{len(s.violations)}.json')
+        path = os.path.join(VERIF, 'out', f'{s.pid}-{role}-{os.getpid()}-{len(s.violations)}.json')
         json.dump({'property': s.pid, 'role': role, 'what': what, 'case': case}, open(path, 'w'), indent=1)
         s.violations.append({'role': role, 'what': what, 'replay': path})
         print(f'VIOLATION property={s.pid} replay={path}', flush=True)
